@@ -1,3 +1,4 @@
+\* X02 concurrent cases, exhaustive: 3 sequential steps then par steps
 INIT BInit
 NEXT BNext
 CONSTANTS
